@@ -73,9 +73,13 @@ Sigmas == {[k |-> "s", v |-> RConst(N, s)] : s \in (IF Full THEN {Q(1, 2), QOne,
                                                          ELSE {Q(1, 2), Q(5, 2)})}
           \cup {[k |-> "v", v |-> SigVec]}
 \* dual points for the conjugate queries
-YCoords == IF N = 2 THEN {QI(-2), QI(-1), Q(-1, 2), QZero, Q(1, 2), QOne, QI(3)} ELSE {QI(-1), QZero, Q(1, 2)}
+YCoords == IF N = 2 THEN (IF Full THEN {QI(-2), QI(-1), Q(-1, 2), QZero, Q(1, 2), QOne, QI(3)}
+                         ELSE IF Tiny THEN {QI(-1), Q(1, 2)} ELSE {QI(-1), QZero, Q(1, 2), QI(3)})
+           ELSE {QI(-1), QZero, Q(1, 2)}
 Ys == TupSet(N, YCoords)
-XsConj == IF N = 2 THEN TupSet(N, {QI(-3), Q(-1, 2), QZero, QOne, QI(2)}) ELSE TupSet(N, {Q(-1, 2), QZero, QI(2)})
+XsConj == IF N = 2 THEN TupSet(N, IF Full THEN {QI(-3), Q(-1, 2), QZero, QOne, QI(2)}
+                                   ELSE IF Tiny THEN {Q(-1, 2), QI(2)} ELSE {QI(-3), Q(-1, 2), QZero, QI(2)})
+          ELSE TupSet(N, {Q(-1, 2), QZero, QI(2)})
 \* directions for the gradient queries
 Ds == IF N = 2 THEN {<<QOne, QZero>>, <<QOne, QI(2)>>, <<QI(-1), QOne>>}
       ELSE {Strict([j \in 1..N |-> IF j = 1 THEN QOne ELSE QZero]),
@@ -114,7 +118,7 @@ ConjRec(e) ==
 GradPoint(e, x) ==
   LET g == QGrad(e, x) IN
   [x |-> x, fx |-> QValue(e, x), interior |-> Interior(e.sp, e.f, x), g |-> g,
-   dds |-> {[d |-> d, dd |-> QDirDeriv(e, x, d)] : d \in Ds}]
+   dds |-> {[d |-> d, dd |-> QDirDeriv(e, x, d), sm |-> SmoothAlong(e.sp, e.f, x, d, Q(1, 64))] : d \in Ds}]
 GradRec(e) ==
   [mode |-> "grad", space |-> IOEnv.FM_SPACE, sp |-> e.sp, f |-> e.f, k |-> e.k, attrs |-> Attrs(e),
    pts |-> {GradPoint(e, x) : x \in Xs}]
